@@ -22,21 +22,22 @@ META = {
 EPOCH = datetime.datetime(1970, 1, 1)
 
 
-def k_threshold(days: int, now_s: int, date_s: int) -> str:
+def k_threshold(days: int, now_s: int, date_s: int, now_us: int) -> str:
     """
     pre: 0 <= days <= 40000
-    pre: 0 <= now_s < 4000000000 and 0 <= date_s < 4000000000
+    pre: 0 <= now_s < 4000000000 and 0 <= date_s < 4000000000 and 0 <= now_us < 1000000
     post: _ == ''
     """
     rt.begin()
     from trashcli.empty.older_than import older_than
-    now = EPOCH + datetime.timedelta(seconds=now_s)
+    # (the clock has microseconds, a DeletionDate has whole seconds)
+    now = EPOCH + datetime.timedelta(seconds=now_s, microseconds=now_us)
     date = EPOCH + datetime.timedelta(seconds=date_s)
     got = older_than(days, now, date)
-    want = date_s < now_s - 86400 * days
+    want = date_s * 1000000 < (now_s - 86400 * days) * 1000000 + now_us
     if got != want:
-        return rt.fail('C10:threshold', 'older_than(days=%r, now=%r, date=%r) = %r, strictly-older-than says %r' % (
-            days, now_s, date_s, got, want))
+        return rt.fail('C10:threshold', 'older_than(days=%r, now=%r s + %r us, date=%r s) = %r, strictly-older-than says %r' % (
+            days, now_s, now_us, date_s, got, want))
     return rt.ok()
 
 
@@ -97,7 +98,7 @@ SLOTS = ['limit-1s', 'limit', 'limit+1s', 'far-past', 'future', 'missing', 'malf
          'now', 'feb29', 'bad-day', 'malformed-then-old', 'empty-then-old', 'old-with-utc-offset', 'old-with-Z',
          'empty-file', 'header-only']
 TDS = [('/h/.local/share/Trash', lambda p: p), ('/v/.Trash/1000', lambda p: p[3:]), ('/v/.Trash-1000', lambda p: p[3:])]
-CLOCKS = ['clock', 'TRASH_DATE', 'invalid-TRASH_DATE', 'clock+asked-and-answered-y', 'clock+terminal-and-answered-yes']
+CLOCKS = ['clock', 'TRASH_DATE', 'invalid-TRASH_DATE', 'clock+asked-and-answered-y', 'clock+terminal-and-answered-yes', 'clock-half-a-second-past']
 
 
 def fmt(dt):
@@ -174,6 +175,13 @@ def _case(days, s0, s1, s2, clock, kind):
             now = '2001-01-01T00:00:00'  # the real clock must be ignored
         elif ck == 'invalid-TRASH_DATE':
             env['TRASH_DATE'] = 'yesterday'
+        elif ck == 'clock-half-a-second-past':
+            # the real clock has microseconds: an entry dated exactly DAYS days before the current whole second IS older
+            now = NOW + '.500000'
+            if dv is not None:
+                for j, slot in enumerate((s0, s1, s2)):
+                    if SLOTS[slot] == 'limit' or (SLOTS[slot] == 'now' and dv == 0):
+                        expect[(TDS[j][0], 'e%d' % j)] = True
         args = [] if dv is None else [str(dv)]
         stdin, tty = [], False
         if ck == 'clock+asked-and-answered-y':
@@ -229,20 +237,20 @@ def _case(days, s0, s1, s2, clock, kind):
 def w_main(days: int, s0: int, s1: int, s2: int, clock: int, kind: int) -> str:
     """
     pre: PARTITION is None or s0 == PARTITION
-    pre: 0 <= days < 5 and 0 <= s0 < 18 and 0 <= s1 < 18 and 0 <= s2 < 18 and 0 <= clock < 5 and 0 <= kind < 2
+    pre: 0 <= days < 5 and 0 <= s0 < 18 and 0 <= s1 < 18 and 0 <= s2 < 18 and 0 <= clock < 6 and 0 <= kind < 2
     post: _ == ''
     """
-    return _case(rt.sel(days, 5), rt.sel(s0, 18), rt.sel(s1, 18), rt.sel(s2, 18), rt.sel(clock, 5), rt.of([0, 2], kind))
+    return _case(rt.sel(days, 5), rt.sel(s0, 18), rt.sel(s1, 18), rt.sel(s2, 18), rt.sel(clock, 6), rt.of([0, 2], kind))
 
 
 def w_quick(days: int, s0: int, clock: int, kind: int) -> str:
     """
     pre: PARTITION is None or days == PARTITION
-    pre: 0 <= days < 5 and 0 <= s0 < 18 and 0 <= clock < 5 and 0 <= kind < 6
+    pre: 0 <= days < 5 and 0 <= s0 < 18 and 0 <= clock < 6 and 0 <= kind < 6
     post: _ == ''
     """
     s = rt.sel(s0, 18)
-    return _case(rt.sel(days, 5), s, (s + 1) % 18, (s + 5) % 18, rt.sel(clock, 5), rt.sel(kind, 6))
+    return _case(rt.sel(days, 5), s, (s + 1) % 18, (s + 5) % 18, rt.sel(clock, 6), rt.sel(kind, 6))
 
 
 # ---------------------------------------------------------------- a trash-put completing while trash-empty DAYS runs
@@ -301,13 +309,13 @@ def obligations(tier):
     obs = [
         CH('K_threshold_all_values', MOD, 'k_threshold', timeout=120, engine='K', regime='traced',
            encodes=['trashcli.empty.older_than.older_than'],
-           bounds='0<=DAYS<=40000; now, date: any second in [1970, 2096]', outside='sub-second, time zones'),
+           bounds='0<=DAYS<=40000; now: any microsecond, date: any second in [1970, 2096]', outside='time zones'),
         CH('K_ok_to_delete', MOD, 'k_ok_to_delete', timeout=240, engine='K', regime='traced',
            encodes=['DeleteAccordingDate.ok_to_delete', 'parse_deletion_date', 'ParseTrashInfo.parse_trashinfo', 'older_than'],
            bounds='DAYS absent or 0..400 symbolic; 10 DeletionDate line shapes; now within +-3 s of the limit (symbolic)',
            stubs=['content reader', 'clock']),
         CH('W_slots_quick', MOD, 'w_quick', timeout=600, partitions=list(range(5)), engine='W', regime='selector', encodes=K.EMPTY_FUNCS, stubs=K.STUBS,
-           bounds='5 DAYS x 18 date slots (x2 derived neighbours) x 5 clock sources / ways of consenting x 6 kinds'),
+           bounds='5 DAYS x 18 date slots (x2 derived neighbours) x 6 clock sources / ways of consenting (incl. a clock half a second past the whole second) x 6 kinds'),
     ]
     obs.append(CH('W_put_completes_while_empty_runs', MOD, 'w_conc', timeout=1200, partitions=[(d, t) for d in range(3) for t in range(2)], engine='W', regime='selector',
                   encodes=K.EMPTY_FUNCS + K.PUT_FUNCS + ['vf.sched replay-stepping'], stubs=K.STUBS,
@@ -315,6 +323,6 @@ def obligations(tier):
     if tier == 'thorough':
         obs.append(CH('W_slots_product', MOD, 'w_main', timeout=3000, partitions=list(range(18)), twin=False, engine='W',
                       regime='selector', encodes=K.EMPTY_FUNCS, stubs=K.STUBS,
-                      bounds='5 DAYS x 18^3 date slots over 3 trash dirs x 5 clock sources / ways of consenting x 2 kinds'))
+                      bounds='5 DAYS x 18^3 date slots over 3 trash dirs x 6 clock sources / ways of consenting (incl. a clock half a second past the whole second) x 2 kinds'))
     from harness import kpair
     return kpair.obligations(tier) + obs
